@@ -364,6 +364,8 @@ def parse_fn(src, name, occ=0, key=None):
     p.eat("fn"); p.next(); p.eat("(")
     params = []
     while not p.at(")"):
+        if p.at("&") and p.peek(1)[1] == "self":
+            p.next()
         p.opt("mut")
         if p.at("self"):
             p.next(); params.append(("self", "Self")); p.opt(","); continue
@@ -535,6 +537,10 @@ class Emit:
                 return "Ordering"
             if rt == "Decimal" and m in DEC_METHODS:
                 return DEC_METHODS[m][0]
+            if rt == "Decimal" and m == "coefficient":
+                return "i128"
+            if rt == "Decimal" and m == "n_frac_digits":
+                return "u8"
             if m == "map":
                 return ("Option", "Decimal")
             if m == "to_bits" and isinstance(rt, str):
@@ -847,6 +853,9 @@ class Emit:
                 raise Unsupported("effect inside a closure")
             return lr, f"(Option.map (fun {ps[0]} => {xb}) ({xr}))"
         t = self.type_of(recv, hint)
+        if t == "Decimal" and m in ("coefficient", "n_frac_digits") and not args:
+            lr, xr = self.ex(recv, "Decimal")
+            return lr, f"({xr}).{'coeff' if m == 'coefficient' else 'nfrac'}"
         if t == "Decimal" and m in DEC_METHODS and not args:
             lr, xr = self.ex(recv, "Decimal")
             if DEC_METHODS[m][2]:
@@ -1300,6 +1309,8 @@ class Emit:
             return p[1]
         if p[0] == "pwild":
             return "_"
+        if p[0] == "plit":
+            return str(p[1])
         if p[0] == "ptuple":
             return "(" + ", ".join(self.pat_lean(x, tt) for x, tt in zip(p[1], t[1])) + ")"
         if p[0] == "pctor":
@@ -1342,7 +1353,7 @@ class Emit:
 
 # ----------------------------------------------------------------------------- driver
 GROUP_IMPORTS = {"KPow": ["Fpdec.Gen.Consts"], "KDivRounded": ["Fpdec.Gen.KRound", "Fpdec.Gen.KPow", "Fpdec.Model.Core"],
-                 "KDecDiv": ["Fpdec.Gen.KDivRounded"], "KDecMul": ["Fpdec.Gen.KDivRounded", "Fpdec.Model.Decimal"], "KNorm": [], "KDecOps": ["Fpdec.Gen.KDecDiv", "Fpdec.Gen.KDecMul", "Fpdec.Gen.KNorm", "Fpdec.Gen.Consts", "Fpdec.Model.Decimal"],
+                 "KDecDiv": ["Fpdec.Gen.KDivRounded"], "KDecMul": ["Fpdec.Gen.KDivRounded", "Fpdec.Model.Decimal"], "KNorm": [], "KDecUnops": ["Fpdec.Gen.KUnops", "Fpdec.Gen.KPow", "Fpdec.Model.Decimal"], "KDecOps": ["Fpdec.Gen.KDecDiv", "Fpdec.Gen.KDecMul", "Fpdec.Gen.KNorm", "Fpdec.Gen.Consts", "Fpdec.Model.Decimal"],
                  "KDecRound": ["Fpdec.Gen.KDivRounded", "Fpdec.Model.Decimal"],
                  "KFloat": ["Fpdec.Gen.KNorm", "Fpdec.Gen.Consts", "Fpdec.Model.Core", "Fpdec.Model.Decimal"], "KRem": ["Fpdec.Gen.KPow"],
                  "KWideDiv": ["Fpdec.Gen.KWide", "Fpdec.Gen.KPow", "Fpdec.Gen.Consts", "Fpdec.Model.Core"]}
@@ -1364,6 +1375,13 @@ KERNELS = [
     ("KDecDiv", "src/binops/div_rounded.rs", "checked_div_rounded", None),
     ("KDecMul", "src/binops/mul_rounded.rs", "checked_mul_rounded", None),
     ("KNorm", "src/lib.rs", "normalize", None),
+    ("KDecUnops", "src/unops.rs", "neg", "Decimal", {"as": "decimal_neg", "occ": 0}),
+    ("KDecUnops", "src/unops.rs", "neg", "Decimal", {"as": "decimal_ref_neg", "occ": 1, "ret": "Decimal"}),
+    ("KDecUnops", "src/unops.rs", "abs", "Decimal", {"as": "decimal_abs"}),
+    ("KDecUnops", "src/unops.rs", "floor", "Decimal", {"as": "decimal_floor"}),
+    ("KDecUnops", "src/unops.rs", "ceil", "Decimal", {"as": "decimal_ceil"}),
+    ("KDecUnops", "src/unops.rs", "trunc", "Decimal", {"as": "decimal_trunc"}),
+    ("KDecUnops", "src/unops.rs", "fract", "Decimal", {"as": "decimal_fract"}),
     ("KDecOps", "src/binops/mul.rs", "mul", "Decimal", {"as": "decimal_mul"}),
     ("KDecOps", "src/binops/checked_mul.rs", "checked_mul", "Decimal", {"as": "decimal_checked_mul", "ret": ("Option", "Decimal")}),
     ("KDecOps", "src/binops/mul_rounded.rs", "mul_rounded", "Decimal", {"as": "decimal_mul_rounded"}),
